@@ -404,6 +404,13 @@ func (p *ValueDecl) endInit(cb *CodeBuilder, arity int) *ValueDecl {
 			}
 		} else if typ == nil {
 			var retType = rets[i].Type
+			if retType == types.Typ[types.UntypedNil] {
+				src, pos, end := cb.loadExpr(rets[i].Src)
+				if src == "" {
+					src = "nil"
+				}
+				cb.panicCodeErrorf(pos, end, "use of untyped %s in variable declaration", src)
+			}
 			var parg *Element
 			if values != nil {
 				parg = &Element{Type: retType, Val: values[i]}
